@@ -54,10 +54,21 @@ def fn_suffix(key):
     return re.sub(r"^candid::(types::|de::Deserializer::<'de>::)?", "", key)
 
 
-def run(chk, facts, tier, only=None):
+def kernels_present(facts):
+    out = []
+    for crate, rx in KERNELS:
+        c = facts.crate(crate)
+        if any(re.search(rx, k) for k in c.bodies):
+            out.append((crate, rx))
+    return out
+
+
+def run(chk, facts, tier, only=None, floor=60):
+    KS = kernels_present(facts)
+
     def r1():
         n = 0
-        for crate, rx in KERNELS:
+        for crate, rx in KS:
             c = facts.crate(crate)
             b = c.body(rx)
             chk.analysed(b.key)
@@ -81,12 +92,12 @@ def run(chk, facts, tier, only=None):
                         "deadguard": "is dead code"}[kind]
                 chk.expect(ok, f"{suf}:{full}", f"{b.key}: {key} {what}: {detail}",
                            where=f"{b.span['file']}:{ln}", ok_detail="discharged by abstract interpretation")
-        chk.floor("kernel obligations", n, 60)
+        chk.floor("kernel obligations", n, floor)
 
     def r2():
         # an unterminated string is an error: every read_exact result is propagated with `?`
         n = 0
-        for crate, rx in KERNELS:
+        for crate, rx in KS:
             b = facts.crate(crate).body(rx)
             for bi, t, cal in b.call_sites():
                 if cal and cal.endswith("io::Read::read_exact"):
@@ -99,11 +110,11 @@ def run(chk, facts, tier, only=None):
                     chk.expect(ok, f"{fn_suffix(b.key)}:read_exact-propagated",
                                f"{b.key}: the result of read_exact must be propagated with `?` (a truncated number is an error)",
                                where=f"{b.span['file']}:{t.get('ln')}")
-        chk.floor("read_exact sites in the kernels", n, 8)
+        chk.floor("read_exact sites in the kernels", n, 8 if floor >= 60 else 4)
 
     def r3():
         n = 0
-        for crate, rx in KERNELS:
+        for crate, rx in KS:
             b = facts.crate(crate).body(rx)
             suf = fn_suffix(b.key)
             if not any(suf.endswith(x) for x in MASK_FNS):
@@ -120,11 +131,21 @@ def run(chk, facts, tier, only=None):
             chk.expect(masks and masks <= LEB_MASKS, f"{suf}:masks",
                        f"{b.key} masks bytes with {sorted(hex(m) for m in masks)}; a (S)LEB128 group has 7 payload bits (0x7f), the "
                        f"continuation bit 0x80 and the sign bit 0x40", ok_detail=str(sorted(hex(m) for m in masks)))
-        chk.floor("kernels with byte masks", n, 7)
+        chk.floor("kernels with byte masks", n, 7 if floor >= 60 else 5)
 
+    sfx = getattr(chk, "cfg_suffix", "")
     for rid, desc, fn in (("C09.R1", "no trap, no silent loss of significant bits, no dead range rejection in any (S)LEB128 kernel", r1),
                           ("C09.R2", "a truncated number is an error (read results are propagated)", r2),
                           ("C09.R3", "byte masks are the LEB128 masks 0x7f / 0x80 / 0x40", r3)):
         if only and only != rid:
             continue
-        chk.run_rule(rid, desc, fn)
+        chk.run_rule(rid + sfx, desc, fn)
+
+
+def run_config(chk, facts, cfg):
+    """thorough tier: the same kernels as compiled without the bignum feature (128-bit codecs on the decoding path)"""
+    chk.cfg_suffix = "@" + cfg
+    try:
+        run(chk, facts, "thorough", None, floor=30)
+    finally:
+        chk.cfg_suffix = ""
